@@ -110,7 +110,7 @@ fn one_file(out: &mut Out, rng: &mut Rng, idx: u64) {
     let nops = 2 + rng.below(10);
     for _ in 0..nops {
         let info = dec.surface_info().map(|s| (s.size(), s.data_len()));
-        let op = rng.below(9);
+        let op = rng.below(10);
         let t0 = std::time::Instant::now();
         let name;
         flag.set(0);
@@ -136,6 +136,18 @@ fn one_file(out: &mut Out, rng: &mut Rng, idx: u64) {
                 (6, _) => { name = "skip_mipmaps"; catch(move || d.skip_mipmaps()) }
                 (7, _) => { name = "rewind_to_previous_surface"; catch(move || d.rewind_to_previous_surface()) }
                 (8, _) => { name = "rewind_to_start"; catch(move || d.rewind_to_start()) }
+                (9, _) => {
+                    // cube-map read: the right 4 x 3 arrangement when it is small enough, otherwise arbitrary small views
+                    name = "read_cube_map";
+                    let fs = d.main_size();
+                    let (iw, ih) = match ((fs.width as u64) * 4, (fs.height as u64) * 3) {
+                        (a, b) if a.saturating_mul(b) <= 40_000 && rng.below(4) != 0 => (a as u32, b as u32),
+                        _ => *rng.pick(&[(4u32, 3u32), (8, 6), (1, 1), (0, 0), (12, 9), (4, 6)]),
+                    };
+                    let color = COLORS[rng.below(12) as usize];
+                    let mut buf = vec![0u8; iw as usize * ih as usize * color.bytes_per_pixel() as usize];
+                    catch(move || d.read_cube_map(ImageViewMut::new(&mut buf, Size::new(iw, ih), color).unwrap()))
+                }
                 _ => { name = "read_surface (1x1 view)"; let mut b = [0u8; 16]; catch(move || d.read_surface(ImageViewMut::new(&mut b[..4], Size::new(1, 1), ColorFormat::RGBA_U8).unwrap())) }
             }
         };
@@ -181,11 +193,46 @@ fn strict_io(out: &mut Out, rng: &mut Rng, idx: u64) {
     }
 }
 
+/// the free functions dds::decode / dds::decode_rect on every format: empty and tiny images, exact / short / empty data
+fn free_functions(out: &mut Out, rng: &mut Rng) {
+    for (fi, (format, name)) in crate::formats::FORMATS.iter().enumerate() {
+        for (w, h) in [(0u32, 0u32), (0, 3), (3, 0), (1, 1), (2, 2), (5, 3), (4, 4), (9, 2)] {
+            for k in 0..3 {
+                let color = COLORS[(fi + k * 5 + w as usize) % 12];
+                let need = PixelInfo::from(*format).surface_bytes(Size::new(w, h)).unwrap_or(0) as usize;
+                let data: Vec<u8> = (0..match k { 0 => need, 1 => need / 2, _ => need + 7 }).map(|_| rng.next() as u8).collect();
+                let mut buf = vec![0u8; w as usize * h as usize * color.bytes_per_pixel() as usize];
+                let mut r = &data[..];
+                let res = catch(|| decode(&mut r, ImageViewMut::new(&mut buf, Size::new(w, h), color).unwrap(), *format, &DecodeOptions::default()));
+                out.count("free_decode"); out.count("oracle_calls");
+                match res {
+                    None => println!("IMPL-VIOLATION panic: dds::decode {name} {w}x{h} into {:?} {:?} with {} of {need} bytes", color.channels, color.precision, data.len()),
+                    Some(Ok(())) if data.len() < need => println!("IMPL-VIOLATION dds::decode of truncated data returned Ok: {name} {w}x{h}"),
+                    _ => {}
+                }
+                // rectangles, the empty one included, of a slightly larger surface
+                let (sw, sh) = (w + 2, h + 1);
+                let sneed = PixelInfo::from(*format).surface_bytes(Size::new(sw, sh)).unwrap_or(0) as usize;
+                let sdata: Vec<u8> = (0..sneed).map(|_| rng.next() as u8).collect();
+                let mut c = std::io::Cursor::new(&sdata[..]);
+                let res = catch(|| decode_rect(&mut c, ImageViewMut::new(&mut buf, Size::new(w, h), color).unwrap(), Offset::new(1, 0), Size::new(sw, sh), *format, &DecodeOptions::default()));
+                out.count("free_decode_rect"); out.count("oracle_calls");
+                match res {
+                    None => println!("IMPL-VIOLATION panic: dds::decode_rect {name} {w}x{h} at (1,0) of {sw}x{sh} into {:?} {:?}", color.channels, color.precision),
+                    Some(Err(e)) => println!("IMPL-VIOLATION dds::decode_rect of a valid rectangle failed ({e}): {name} {w}x{h} at (1,0) of {sw}x{sh}"),
+                    Some(Ok(())) => if c.position() != sneed as u64 { println!("IMPL-VIOLATION dds::decode_rect left the reader at {} of {sneed}: {name} {w}x{h}", c.position()); },
+                }
+            }
+        }
+    }
+}
+
 pub fn run(out: &mut Out, tier: &str, seed: u64, _corpus: Option<&str>) {
     let thorough = tier == "thorough";
     let mut rng = Rng::new(seed ^ 0xC01);
     if tier == "replay" { return; }
     let n = if thorough { 3_000_000 } else { 150_000 };
+    free_functions(out, &mut rng);
     for i in 0..n { one_file(out, &mut rng, i); }
     for i in 0..(if thorough { 200_000 } else { 20_000 }) { strict_io(out, &mut rng, i); }
     // the harness prints one summary case so that the runner has something to agree on
